@@ -32,6 +32,12 @@ def _css_code(ctx: Ctx, rows) -> Obj:
     o = mini_code(ctx, [f's{i}' for i in range(len(rows))])
     n = len(QUBITS)
     o.fields['stabilizer_matrix'] = MiniCSR(np.array(rows))
+    # the operators the rows are the image of (a property may read them instead of the matrix)
+    ops = {}
+    for i, r in enumerate(rows):
+        ops[f's{i}'] = {QUBITS[q]: {(1, 0): 'X', (0, 1): 'Z', (1, 1): 'Y'}[(r[q], r[n + q])]
+                        for q in range(n) if (r[q], r[n + q]) != (0, 0)}
+    o.fields['_abstract_ops'] = ops
     o.fields['_Hx'] = MiniCSR.zeros((0, n))
     o.fields['_Hz'] = MiniCSR.zeros((0, n))
     for f in ('_x_indices', '_z_indices', '_is_css'):
@@ -44,7 +50,8 @@ def _prop(ctx: Ctx, name: str, code: Obj, args=()):
     r = ci.find_method(name)
     ctx.need(r is not None, 'R02.2', site_of(ci.module, ci.node), f'{name} not found (vanished anchor)')
     fn = r[1]
-    outs = _run_fn(ctx, 'R02.2', ci.module, fn, list(args), self_obj=code, cls=ci, hooks=CodeHooks())
+    outs = _run_fn(ctx, 'R02.2', ci.module, fn, list(args), self_obj=code, cls=ci,
+                   hooks=CodeHooks(code.fields.get('_abstract_ops')))
     return fn, _single(ctx, 'R02.2', ci.module, fn, outs)
 
 
@@ -77,6 +84,12 @@ def _r022(ctx: Ctx) -> None:
     fn, v = _prop(ctx, 'is_css', _css_code(ctx, mixed))
     ob(fn, 'is_css false when a row has X and Z components', bool(v) if not isinstance(v, str) else v, False,
        'is_css|mixed')
+    # generators made of Y only: one Pauli letter per generator, yet every row has an X and a Z block
+    all_y = [[1, 1, 0, 0, 1, 1, 0, 0],
+             [0, 0, 1, 1, 0, 0, 1, 1]]
+    fn, v = _prop(ctx, 'is_css', _css_code(ctx, all_y))
+    ob(fn, 'is_css false when the generators are made of Y only (every row is in both masks)',
+       bool(v) if not isinstance(v, str) else v, False, 'is_css|all-Y')
     fn, v = _prop(ctx, 'Hx', _css_code(ctx, css))
     ob(fn, 'Hx = X-rows of the X block', _aslist(v), [[1, 1, 0, 0], [0, 0, 0, 1]], 'Hx|css')
     fn, v = _prop(ctx, 'Hz', _css_code(ctx, css))
